@@ -1,25 +1,46 @@
 """C01 — fixed-capacity vectors: history generators (capacity-aware, mostly valid; a separate share of
 histories ends in a precondition violation so that contract agreement impl/model is exercised too)."""
 import itertools
+import os
 
 ID = "C01"
 LEVEL = "proof"
+HERE = os.path.dirname(os.path.abspath(__file__))
+_PCXX = os.path.join(HERE, "pcxx.py")          # parallel compile wrapper: the same source in 8 parts
+_NPARTS = "-DC01_NPARTS=8"
 HARNESSES = [
-    {"name": "main", "src": "harness.cpp", "flags": ["-O1", "-DTETL_ENABLE_CONTRACT_CHECKS=1"]},
-    {"name": "asan", "src": "harness.cpp", "flags": ["-O1", "-g", "-fsanitize=address,undefined", "-fno-sanitize-recover=all",
-                                                      "-DTETL_ENABLE_CONTRACT_CHECKS=1"], "thorough_only": True},
+    {"name": "main", "src": "harness.cpp", "compiler": _PCXX, "flags": ["-O1", "-DTETL_ENABLE_CONTRACT_CHECKS=1", _NPARTS]},
+    {"name": "asan", "src": "harness.cpp", "compiler": _PCXX,
+     "flags": ["-O1", "-g", "-fsanitize=address,undefined", "-fno-sanitize-recover=all", "-DTETL_ENABLE_CONTRACT_CHECKS=1", _NPARTS],
+     "thorough_only": True},
 ]
-RULE = ("a case = a whole operation history on two vectors of one flavour (static_vector<int>, static_vector<non-trivial>, "
-        "stack, inplace_vector<int>, inplace_vector<non-trivial>) and capacity in {0,1,2,3,4,8,16,254,255,256}; "
-        "exhaustive part: every content state of length <= cap <= 3 over values {1,2,3} x every single operation with every "
-        "position/count argument in [-1, size+1]; random part: seeded capacity-aware histories of length <= 40, ~35% of steps at or "
-        "crossing full/empty, fill-to-boundary runs at 254/255/256; non-trivial = distinct history that reaches a non-empty state")
-TRUSTED_BASE = ["reference leg: libstdc++ 12 std::vector<int> driven by the same history (reserve()d, so no reallocation effects)"]
-ASSUMPTIONS = ["element values are ints (the non-trivial element type wraps an int and counts live instances)",
-               "a moved-from vector is only cleared/assigned/destroyed afterwards (its content is unspecified in std)"]
+RULE = ("a case = a whole operation history on two objects of one flavour: static_vector of int / Pod (trivial storage), Tracked / "
+        "NxCopy (noexcept non-trivial copy, self-checking) / std::string / MoveOnly (non-trivial storage); stack over static_vector of "
+        "int / Tracked / std::string; inplace_vector of the same six element kinds; capacities {0,1,2,3,4,8,16,254,255,256} and "
+        "{65534,65535,65536}; exhaustive part: every content state of length <= cap <= 3 over values {1,18,35} x every single "
+        "operation (57 static_vector operations, 17 stack operations, 24 inplace_vector operations) with every position/count/index "
+        "argument in [-1, size+1]; short exhaustive histories for inplace_vector and stack; random part: seeded capacity-aware "
+        "histories of length <= 40, ~35% of steps at or crossing full/empty, fill-to-boundary runs at 254/255/256 (and, thorough tier, "
+        "65534/65535/65536); non-trivial = distinct history that reaches a non-empty state")
+TRUSTED_BASE = ["reference leg: libstdc++ 12 std::vector<int> / std::stack<int, std::vector<int>> driven by the same history "
+                "(reserve()d, so no reallocation effects)",
+                "props/C01/pcxx.py (parallel compile wrapper around g++)"]
+ASSUMPTIONS = ["element values are ints (the non-trivial element types wrap an int, count live instances and check their own identity; "
+               "std::string elements are 24-digit decimal strings)",
+               "a moved-from vector/stack is only cleared/assigned/destroyed afterwards (its content is unspecified in std)"]
 
 SV_CAPS = [0, 1, 2, 3, 4, 8, 16, 254, 255, 256]
-SMALL_CAPS = [0, 1, 3, 4, 16]
+BIG_CAPS = [65534, 65535, 65536]
+# flavour -> capacities instantiated in harness.cpp
+CAPS = {
+    "sv_int": SV_CAPS + BIG_CAPS, "sv_trk": [0, 1, 3, 4, 16], "sv_pod": [3, 16], "sv_nxc": [1, 3, 4], "sv_str": [0, 1, 3, 4],
+    "sv_mov": [0, 1, 3, 4, 16],
+    "stack": [0, 1, 3, 4, 16, 256], "st_trk": [1, 3, 4], "st_str": [1, 3],
+    "iv_int": SV_CAPS + BIG_CAPS, "iv_trk": [0, 1, 3, 4, 16], "iv_nxc": [1, 3, 4], "iv_mov": [0, 1, 3, 4], "iv_str": [1, 3, 4],
+    "iv_pod": [3, 16],
+}
+# operations that need a copyable element type (the harness answers `unsupported-step` for them on MoveOnly)
+NEEDS_COPY = {"icr", "inn", "irg", "rsv", "asn", "asr", "cpa", "cpc", "sca", "ctv", "ctr", "cpi", "ivc"}
 
 
 def L(xs):
@@ -30,6 +51,10 @@ def hist(flavour, cap, ops):
     return f"hist {flavour} {cap} {len(ops)} " + " ".join(ops)
 
 
+def kind(fl):
+    return "iv" if fl.startswith("iv") else "st" if fl.startswith("st") else "sv"
+
+
 class Sim:
     """python mirror of the list semantics, only to steer generation (validity / sizes)"""
 
@@ -37,12 +62,19 @@ class Sim:
         self.cap = cap
         self.v = [[], []]
 
+    def mutate(self, x, val):
+        if x:
+            x[0] = val
+            x.pop()
+        elif self.cap > 0:
+            x.append(val)
+
     def apply(self, op):
         t = op.split()
         name = t[0]
         a = [int(x) for x in t[1:]]
         v = self.v
-        if name == "swp":
+        if name in ("swp", "fsw"):
             v[0], v[1] = v[1], v[0]
             return True
         if name == "rel":
@@ -51,11 +83,13 @@ class Sim:
         x = v[tg]
         sz = len(x)
         room = self.cap - sz
-        if name in ("pb", "eb", "upb"):
+        if name in ("pb", "pbr", "eb", "upb", "uem", "upr"):
             if room < 1: return False
             x.append(a[1])
-        elif name == "tpb":
+        elif name in ("tpb", "tem", "tpr"):
             if room >= 1: x.append(a[1])
+        elif name == "fil":
+            x.extend([a[2]] * max(0, min(a[1], room)))
         elif name == "pop":
             if sz == 0: return False
             x.pop()
@@ -65,7 +99,7 @@ class Sim:
         elif name == "inn":
             if not (0 <= a[1] <= sz) or not (0 <= a[2] <= room): return False
             x[a[1]:a[1]] = [a[3]] * a[2]
-        elif name == "irg":
+        elif name in ("irg", "mir"):
             xs = a[3:3 + a[2]]
             if not (0 <= a[1] <= sz) or len(xs) > room: return False
             x[a[1]:a[1]] = xs
@@ -83,10 +117,13 @@ class Sim:
             fillv = a[2] if name == "rsv" else 0
             if n <= sz: del x[n:]
             else: x.extend([fillv] * (n - sz))
-        elif name == "asn":
+        elif name in ("asn", "ctv"):
             if not (0 <= a[1] <= self.cap): return False
             v[tg] = [a[2]] * a[1]
-        elif name == "asr":
+        elif name == "ctn":
+            if not (0 <= a[1] <= self.cap): return False
+            v[tg] = [0] * a[1]
+        elif name in ("asr", "ctr", "fcc", "fcr"):
             xs = a[2:2 + a[1]]
             if len(xs) > self.cap: return False
             v[tg] = list(xs)
@@ -104,15 +141,28 @@ class Sim:
             v[tg] = [e for e in x if e != a[1]]
         elif name in ("at",):
             if not (0 <= a[1] < sz): return False
+        elif name == "sat":
+            if not (0 <= a[1] < sz): return False
+            x[a[1]] = a[2]
         elif name in ("fr", "bk"):
             if sz == 0: return False
-        elif name == "ivm":
+        elif name == "sfr":
+            if sz == 0: return False
+            x[0] = a[1]
+        elif name == "sbk":
+            if sz == 0: return False
+            x[-1] = a[1]
+        elif name in ("ivm", "mvc"):
             v[tg] = []
+        elif name == "cpi":
+            if a[1] == 0:
+                self.mutate(x, a[2])
+        # rit cit dat mxs sma sca ssw cpc mrt ivc siz: no change, always valid
         return True
 
 
-def single_ops(t, sz, cap, vals):
-    """every single operation with boundary arguments for a vector of size sz"""
+def sv_single_ops(t, sz, cap, vals):
+    """every single static_vector operation with boundary arguments for a vector of size sz"""
     ops = []
     x = vals[0]
     for name in ("pb", "eb"):
@@ -121,21 +171,160 @@ def single_ops(t, sz, cap, vals):
     for pos in range(-1, sz + 2):
         ops += [f"icr {t} {pos} {x}", f"irv {t} {pos} {x}", f"emp {t} {pos} {x}", f"era {t} {pos}"]
         for n in range(0, cap - sz + 2):
+            xs = vals[:n] if n <= len(vals) else vals + [7] * (n - len(vals))
             ops.append(f"inn {t} {pos} {n} {x}")
-            ops.append(f"irg {t} {pos} {L(vals[:n] if n <= len(vals) else vals + [7] * (n - len(vals)))}")
+            ops.append(f"irg {t} {pos} {L(xs)}")
+            ops.append(f"mir {t} {pos} {L(xs)}")
         for l in range(pos, sz + 2):
             ops.append(f"err {t} {pos} {l}")
     ops.append(f"clr {t}")
-    for n in range(0, cap + 2):
-        ops += [f"rsz {t} {n}", f"rsv {t} {n} {x}", f"asn {t} {n} {x}", f"asr {t} {L((vals * 3)[:n])}"]
-    ops += ["swp", f"cpa {t}", f"mva {t}", f"cpc {t}", f"mrt {t}", "rel", f"sca {t}", f"ssw {t}", f"fr {t}", f"bk {t}"]
+    for n in range(-1, cap + 2):
+        if n >= 0:
+            ops += [f"rsz {t} {n}", f"rsv {t} {n} {x}", f"asn {t} {n} {x}", f"asr {t} {L((vals * 3)[:n])}", f"ctr {t} {L((vals * 3)[:n])}"]
+        ops += [f"ctn {t} {n}", f"ctv {t} {n} {x}"]
+    ops += ["swp", "fsw", f"cpa {t}", f"mva {t}", f"cpc {t}", f"mrt {t}", "rel", f"sca {t}", f"sma {t}", f"ssw {t}", f"fr {t}", f"bk {t}",
+            f"rit {t} 0", f"rit {t} 1", f"rit {t} 2", f"cit {t}", f"dat {t}", f"mxs {t}", f"sfr {t} 52", f"sbk {t} 52",
+            f"cpi {t} 0 52", f"cpi {t} 1 52"]
     for pid in range(0, 5):
         ops.append(f"eif {t} {pid}")
     for v in vals[:2]:
         ops.append(f"erv {t} {v}")
     for i in range(-1, sz + 1):
-        ops.append(f"at {t} {i}")
+        ops += [f"at {t} {i}", f"sat {t} {i} 52"]
     return ops
+
+
+def st_single_ops(t, sz, cap, vals):
+    x = vals[0]
+    ops = [f"pb {t} {x}", f"pbr {t} {x}", f"eb {t} {x}", f"pop {t}", f"bk {t}", f"sbk {t} 52", f"siz {t}", "swp", "fsw", "rel",
+           f"cpc {t}", f"mvc {t}", f"cpa {t}", f"mva {t}", f"sca {t}"]
+    for n in range(0, cap + 2):
+        ops += [f"fcc {t} {L((vals * 3)[:n])}", f"fcr {t} {L((vals * 3)[:n])}"]
+    return ops
+
+
+def iv_single_ops(t, sz, cap, vals):
+    x = vals[0]
+    ops = [f"tpb {t} {x}", f"tpb {t} {x + 1}", f"tem {t} {x}", f"tpr {t} {x}", f"upb {t} {x}", f"upb {t} {x + 1}", f"uem {t} {x}", f"upr {t} {x}",
+           f"pop {t}", f"clr {t}", f"fr {t}", f"bk {t}", f"ivc {t}", f"ivm {t}", f"cpa {t}", f"mva {t}", f"sca {t}", f"sma {t}",
+           f"sfr {t} 52", f"sbk {t} 52", f"dat {t}", f"mxs {t}", f"cpi {t} 0 52", f"cpi {t} 1 52"]
+    for n in range(-1, cap - sz + 2):
+        ops.append(f"fil {t} {n} {x}")
+    for i in range(-1, sz + 1):
+        ops += [f"at {t} {i}", f"sat {t} {i} 52"]
+    return ops
+
+
+def setup_ops(fl, c0, c1):
+    """bring the two objects to contents c0 / c1"""
+    k = kind(fl)
+    if k == "iv":
+        return [f"tpb 0 {e}" for e in c0] + [f"tem 1 {e}" for e in c1]
+    if k == "st":
+        return [f"fcc 0 {L(list(c0))}", f"fcr 1 {L(list(c1))}"]
+    if fl == "sv_mov":
+        return [f"mir 0 0 {L(list(c0))}", f"mir 1 0 {L(list(c1))}"]
+    return [f"asr 0 {L(list(c0))}", f"asr 1 {L(list(c1))}"]
+
+
+def supported(fl, op):
+    return not (fl.endswith("_mov") and op.split()[0] in NEEDS_COPY)
+
+
+def exhaustive_single(out, fl, cap, vals, full_contents, rng=None, keep=1.0):
+    k = kind(fl)
+    single = {"sv": sv_single_ops, "st": st_single_ops, "iv": iv_single_ops}[k]
+    tail = {"sv": ["rel", "cpc 0" if fl != "sv_mov" else "mrt 0"], "st": ["rel", "cpc 0"], "iv": ["dat 0", "dat 1"]}[k]
+    for n0 in range(0, cap + 1):
+        if full_contents or n0 <= 1:
+            contents = list(itertools.product(vals, repeat=n0))
+        else:
+            contents = sorted({tuple(vals[:n0]), tuple(reversed(vals[:n0])), (vals[0],) * n0})
+        for c0 in contents:
+            for c1 in [(), tuple(vals[:min(cap, 2)])]:
+                setup = setup_ops(fl, c0, c1)
+                for o in single(0, n0, cap, vals):
+                    if not supported(fl, o):
+                        continue
+                    if keep < 1.0 and rng.random() > keep:
+                        continue
+                    out.append(hist(fl, cap, setup + [o] + tail))
+
+
+def random_history(rng, fl, cap, vals, steps, want_invalid, fill_first=None):
+    k = kind(fl)
+    sim = Sim(cap)
+    ops = []
+    if fill_first is not None:
+        n = fill_first
+        o = {"sv": f"asn 0 {n} {rng.choice(vals)}", "st": f"fcc 0 {L([rng.choice(vals)] * n)}", "iv": f"fil 0 {n} {rng.choice(vals)}"}[k]
+        if fl == "sv_mov":
+            o = f"rsz 0 {n}"
+        if o is not None:
+            ops.append(o); sim.apply(o)
+    for step in range(steps):
+        t = rng.randint(0, 1)
+        sz = len(sim.v[t])
+        room = cap - sz
+        x = rng.choice(vals + [52, 3])
+        i = rng.randint(0, max(0, sz - 1))
+        if k == "iv":
+            cand = [f"tpb {t} {x}", f"tpb {t} {x}", f"tem {t} {x}", f"tpr {t} {x}", f"upb {t} {x}", f"uem {t} {x}", f"upr {t} {x}",
+                    f"pop {t}", f"clr {t}", f"fr {t}", f"bk {t}", f"at {t} {i}", f"ivc {t}", f"ivm {t}", f"cpa {t}", f"mva {t}",
+                    f"sca {t}", f"sma {t}", f"sat {t} {i} {x}", f"sfr {t} {x}", f"sbk {t} {x}", f"dat {t}", f"mxs {t}",
+                    f"cpi {t} {rng.randint(0, 1)} {x}", f"fil {t} {rng.randint(0, max(0, min(room, 4)) + 1)} {x}"]
+        elif k == "st":
+            cand = [f"pb {t} {x}", f"pbr {t} {x}", f"eb {t} {x}", f"pop {t}", f"pop {t}", f"bk {t}", f"sbk {t} {x}", f"siz {t}", "swp", "fsw",
+                    "rel", f"cpc {t}", f"mvc {t}", f"cpa {t}", f"mva {t}", f"sca {t}",
+                    f"fcc {t} {L([rng.choice(vals) for _ in range(rng.randint(0, min(cap, 5)))])}",
+                    f"fcr {t} {L([rng.choice(vals) for _ in range(rng.randint(0, min(cap, 5)))])}"]
+        else:
+            pos = rng.randint(0, sz)
+            n = rng.randint(0, max(0, min(room, 5)))
+            if rng.random() < 0.3:
+                n = min(room, 300)   # exactly to full
+            f = rng.randint(0, sz); l = rng.randint(f, sz)
+            xs = [rng.choice(vals) for _ in range(n)]
+            small = [rng.choice(vals) for _ in range(rng.randint(0, min(cap, 6)))]
+            cand = [f"pb {t} {x}", f"eb {t} {x}", f"pop {t}", f"icr {t} {pos} {x}", f"irv {t} {pos} {x}", f"emp {t} {pos} {x}",
+                    f"inn {t} {pos} {n} {x}", f"irg {t} {pos} {L(xs)}", f"mir {t} {pos} {L(xs)}", f"era {t} {i}", f"err {t} {f} {l}",
+                    f"clr {t}", f"rsz {t} {rng.randint(0, cap)}", f"rsv {t} {rng.randint(0, cap)} {x}",
+                    f"asn {t} {rng.randint(0, min(cap, 6))} {x}", f"asr {t} {L(small)}",
+                    "swp", "fsw", f"cpa {t}", f"mva {t}", f"cpc {t}", f"mrt {t}", f"eif {t} {rng.randint(0, 4)}", f"erv {t} {x}", "rel",
+                    f"at {t} {i}", f"fr {t}", f"bk {t}", f"sca {t}", f"sma {t}", f"ssw {t}",
+                    f"rit {t} {rng.randint(0, 2)}", f"cit {t}", f"dat {t}", f"mxs {t}", f"sat {t} {i} {x}", f"sfr {t} {x}", f"sbk {t} {x}",
+                    f"ctn {t} {rng.randint(0, min(cap, 6))}", f"ctv {t} {rng.randint(0, min(cap, 6))} {x}", f"ctr {t} {L(small)}",
+                    f"cpi {t} {rng.randint(0, 1)} {x}"]
+        cand = [o for o in cand if supported(fl, o)]
+        rng.shuffle(cand)
+        chosen = None
+        for o in cand:
+            trial = Sim(cap); trial.v = [list(sim.v[0]), list(sim.v[1])]
+            if trial.apply(o):
+                chosen = o
+                break
+        if chosen is None:
+            break
+        if want_invalid and step == steps - 1:
+            # end with a violating call
+            if k == "sv":
+                bad = [f"pb {t} {x}" if room == 0 else (f"inn {t} 0 {room + 1} {x}" if fl != "sv_mov" else f"mir {t} 0 {L([x] * (room + 1))}"),
+                       f"at {t} -1", f"at {t} {sz}", f"era {t} {sz}", f"irv {t} {sz + 1} {x}", f"err {t} {min(sz, 1)} {sz + 1}", f"rsz {t} {cap + 1}",
+                       f"sat {t} {sz} {x}", f"ctn {t} {cap + 1}", f"mir {t} {sz + 1} 0", f"ctn {t} -1"]
+                if fl != "sv_mov":
+                    bad += [f"inn {t} 0 -1 {x}", f"inn {t} 0 {-sz - 1} {x}", f"icr {t} {sz + 1} {x}", f"ctv {t} {cap + 1} {x}", f"ctr {t} {L([x] * (cap + 1))}"]
+                if sz == 0:
+                    bad += [f"sfr {t} {x}", f"sbk {t} {x}", f"pop {t}"]
+            elif k == "iv":
+                bad = ([f"upb {t} {x}", f"uem {t} {x}", f"upr {t} {x}"] if room == 0 else [f"at {t} {sz}", f"sat {t} {sz} {x}"]) + \
+                      ([f"pop {t}", f"sfr {t} {x}", f"sbk {t} {x}", f"fr {t}"] if sz == 0 else [])
+            else:
+                bad = ([f"pb {t} {x}", f"pbr {t} {x}", f"eb {t} {x}"] if room == 0 else []) + \
+                      ([f"pop {t}", f"bk {t}", f"sbk {t} {x}"] if sz == 0 else []) + [f"fcc {t} {L([x] * (cap + 1))}"]
+            chosen = rng.choice(bad)
+        ops.append(chosen)
+        sim.apply(chosen)
+    return hist(fl, cap, ops)
 
 
 def gen(tier, rng):
@@ -144,89 +333,58 @@ def gen(tier, rng):
     vals = [1, 18, 35]   # keys 0,1,2 (so predicates distinguish them)
     # ---- exhaustive single operations from every small content state
     for cap in [0, 1, 2, 3] + ([] if quick else [4]):
-        for n0 in range(0, cap + 1):
-            contents = list(itertools.product(vals, repeat=n0)) if (n0 <= 2 or not quick) else [tuple(vals[:n0]), tuple(reversed(vals[:n0])), (1,) * n0]
-            for c0 in contents:
-                for c1 in [(), tuple(vals[:min(cap, 2)])]:
-                    setup = [f"asr 0 {L(list(c0))}", f"asr 1 {L(list(c1))}"]
-                    for o in single_ops(0, n0, cap, vals):
-                        ops = setup + [o, "rel", "cpc 0"]
-                        for fl in (["sv_int", "sv_trk"] if cap in SMALL_CAPS else ["sv_int"]):
-                            out.append(hist(fl, cap, ops))
+        exhaustive_single(out, "sv_int", cap, vals, full_contents=(cap <= 2 or not quick))
+        if cap in CAPS["sv_trk"]:
+            exhaustive_single(out, "sv_trk", cap, vals, full_contents=(cap <= 1 or not quick))
+    for fl in ("sv_nxc", "sv_str", "sv_mov", "sv_pod"):
+        for cap in ([3] if quick else CAPS[fl]):
+            if cap in CAPS[fl] and cap <= 4:
+                exhaustive_single(out, fl, cap, vals, full_contents=False, rng=rng, keep=(0.5 if quick else 1.0))
+    for fl in ("stack", "st_trk", "st_str"):
+        for cap in [c for c in CAPS[fl] if c <= (3 if quick else 4)]:
+            exhaustive_single(out, fl, cap, vals, full_contents=not quick)
+    for fl in ("iv_int", "iv_trk", "iv_nxc", "iv_mov", "iv_str", "iv_pod"):
+        for cap in [c for c in CAPS[fl] if c <= (3 if quick else 4)]:
+            exhaustive_single(out, fl, cap, vals, full_contents=(fl == "iv_int" or not quick))
     # ---- inplace_vector and stack: exhaustive short histories
-    iv_alpha = ["tpb 0 2", "tpb 0 3", "upb 0 4", "pop 0", "clr 0", "fr 0", "bk 0", "at 0 0", "at 0 1", "ivc 0", "ivm 0", "tpb 1 6", "ivm 1"]
-    st_alpha = ["pb 0 1", "eb 0 2", "pop 0", "bk 0", "swp", "rel", "cpc 0", "pb 1 3"]
+    iv_alpha = ["tpb 0 2", "tem 0 3", "upb 0 4", "pop 0", "clr 0", "bk 0", "at 0 1", "ivc 0", "ivm 0", "tpr 1 6", "mva 0", "cpa 1", "sbk 0 9"]
+    st_alpha = ["pb 0 1", "eb 0 2", "pop 0", "bk 0", "swp", "rel", "cpc 0", "pbr 1 3", "mva 0", "cpa 1"]
     depth = 3 if quick else 4
-    iv_unreachable = ("upb", "pop", "fr", "bk", "at")   # etl::unreachable() in inplace_vector<T, 0>: plain UB, not observable
+    iv_unreachable = ("upb", "pop", "fr", "bk", "at", "sbk")   # every such call is a contract violation in inplace_vector<T, 0>
     for cap in [0, 1, 3]:
         for h in itertools.product(iv_alpha, repeat=depth):
             if cap == 0 and sum(o.split()[0] in iv_unreachable for o in h) > 1:
-                continue   # every such call is a contract violation in inplace_vector<T, 0>: one per history is enough
+                continue   # one per history is enough
             out.append(hist("iv_int", cap, list(h)))
-            if cap != 0 and (not quick or rng.random() < 0.3):
-                out.append(hist("iv_trk", cap, list(h)))
+            if cap != 0 and (not quick or rng.random() < 0.25):
+                out.append(hist(rng.choice(["iv_trk", "iv_nxc", "iv_str"]), cap, list(h)))
         for h in itertools.product(st_alpha, repeat=depth):
-            out.append(hist("stack", cap, list(h)))
+            if not quick or rng.random() < 0.5:
+                out.append(hist("stack", cap, list(h)))
+    # ---- the size-type boundaries 65534 / 65535 / 65536: the objects exist and work (quick); filled to the boundary
+    #      and back (thorough: one fill costs the extracted model ~10^10 list steps)
+    for cap in BIG_CAPS:
+        out.append(hist("sv_int", cap, ["pb 0 1", "ctv 1 3 18", "irv 0 0 35", "mxs 0", "rel", "rit 0 0", "fsw", "cpi 0 1 7"]))
+        out.append(hist("iv_int", cap, ["tpb 0 1", "fil 1 3 18", "tem 0 35", "mxs 0", "cpa 1", "sbk 1 7", "mva 0", "dat 0"]))
+    if not quick and tier != "search":
+        for cap in BIG_CAPS:
+            out.append(hist("sv_int", cap, [f"asn 0 {cap - 1} 1", "pb 0 18", "mxs 0", "pop 0", "swp", "bk 1"]))
+            out.append(hist("iv_int", cap, [f"fil 0 {cap - 1} 1", "tpb 0 18", "tem 0 35", "mxs 0", "pop 0", "bk 0"]))
     # ---- random capacity-aware histories
-    n_rand = 2500 if quick else 120000
+    n_rand = 2600 if quick else (20000 if tier == "search" else 120000)
+    flavours = ["sv_int"] * 5 + ["sv_trk"] * 2 + ["sv_nxc", "sv_str", "sv_mov", "sv_mov", "sv_pod"] + \
+               ["stack", "stack", "st_trk", "st_str"] + ["iv_int"] * 3 + ["iv_trk", "iv_nxc", "iv_mov", "iv_str", "iv_pod"]
     for _ in range(n_rand):
-        fl = rng.choice(["sv_int", "sv_int", "sv_trk", "iv_int", "iv_trk", "stack"])
-        cap = rng.choice(SV_CAPS if fl in ("sv_int", "iv_int") else SMALL_CAPS)
-        sim = Sim(cap)
-        ops = []
+        fl = rng.choice(flavours)
+        cap = rng.choice([c for c in CAPS[fl] if c < 60000])
         steps = rng.randint(3, 40)
         want_invalid = rng.random() < 0.12
-        if cap >= 254 and rng.random() < 0.7 and fl in ("sv_int", "iv_int"):
+        fill = None
+        if cap >= 254 and rng.random() < 0.7:
             # go to the size-type boundary first
-            n = rng.choice([cap - 1, cap, cap - 2])
-            if fl == "sv_int":
-                o = f"asn 0 {n} {rng.choice(vals)}"
-                ops.append(o); sim.apply(o)
-            else:
-                for i in range(n):
-                    o = f"tpb 0 {rng.choice(vals)}"
-                    ops.append(o); sim.apply(o)
-        for k in range(steps):
-            t = rng.randint(0, 1)
-            sz = len(sim.v[t])
-            room = cap - sz
-            x = rng.choice(vals + [52, 3])
-            if fl.startswith("iv"):
-                cand = [f"tpb {t} {x}", f"tpb {t} {x}", f"upb {t} {x}", f"pop {t}", f"clr {t}", f"fr {t}", f"bk {t}",
-                        f"at {t} {rng.randint(0, max(0, sz - 1))}", f"ivc {t}", f"ivm {t}"]
-            elif fl == "stack":
-                cand = [f"pb {t} {x}", f"eb {t} {x}", f"pop {t}", f"bk {t}", "swp", "rel", f"cpc {t}"]
-            else:
-                pos = rng.randint(0, sz)
-                n = rng.randint(0, max(0, min(room, 5)))
-                if rng.random() < 0.3:
-                    n = room   # exactly to full
-                f = rng.randint(0, sz); l = rng.randint(f, sz)
-                xs = [rng.choice(vals) for _ in range(n)]
-                cand = [f"pb {t} {x}", f"eb {t} {x}", f"pop {t}", f"icr {t} {pos} {x}", f"irv {t} {pos} {x}", f"emp {t} {pos} {x}",
-                        f"inn {t} {pos} {n} {x}", f"irg {t} {pos} {L(xs)}", f"era {t} {rng.randint(0, max(0, sz - 1))}", f"err {t} {f} {l}",
-                        f"clr {t}", f"rsz {t} {rng.randint(0, cap)}", f"rsv {t} {rng.randint(0, cap)} {x}",
-                        f"asn {t} {rng.randint(0, min(cap, 6))} {x}", f"asr {t} {L([rng.choice(vals) for _ in range(rng.randint(0, min(cap, 6)))])}",
-                        "swp", f"cpa {t}", f"mva {t}", f"cpc {t}", f"mrt {t}", f"eif {t} {rng.randint(0, 4)}", f"erv {t} {x}", "rel",
-                        f"at {t} {rng.randint(0, max(0, sz - 1))}", f"fr {t}", f"bk {t}", f"sca {t}", f"ssw {t}"]
-            rng.shuffle(cand)
-            chosen = None
-            for o in cand:
-                trial = Sim(cap); trial.v = [list(sim.v[0]), list(sim.v[1])]
-                if trial.apply(o):
-                    chosen = o
-                    break
-            if chosen is None:
-                break
-            if want_invalid and k == steps - 1:
-                # end with a violating call
-                bad = [f"pb {t} {x}" if room == 0 else f"inn {t} 0 {room + 1} {x}", f"inn {t} 0 -1 {x}", f"inn {t} 0 {-sz - 1} {x}", f"at {t} -1", f"at {t} {sz}", f"era {t} {sz}", f"icr {t} {sz + 1} {x}",
-                       f"err {t} {min(sz, 1)} {sz + 1}", f"rsz {t} {cap + 1}"] if not fl.startswith("iv") and fl != "stack" else \
-                      ([f"upb {t} {x}"] if room == 0 else [f"at {t} {sz}"]) if fl.startswith("iv") else ([f"pb {t} {x}"] if room == 0 else [f"pop {t}"] if sz == 0 else [f"bk {t}"])
-                chosen = rng.choice(bad)
-            ops.append(chosen)
-            sim.apply(chosen)
-        out.append(hist(fl, cap, ops))
+            fill = rng.choice([cap - 1, cap, cap - 2])
+            steps = min(steps, 12)
+        out.append(random_history(rng, fl, cap, vals, steps, want_invalid, fill))
     return out
 
 
